@@ -383,6 +383,37 @@ def _is_some_temp(body, op):
     return len(d2) == 1 and d2[0][2] == "rv" and d2[0][3]["k"] == "agg" and d2[0][3].get("variant") == "Some"
 
 
+def from_logging_term(t):
+    sp = t.get("sp") or {}
+    return any(("log" in x or x.startswith(("debug!", "trace!", "info!", "warn!", "error!", "format_args!"))) for x in sp.get("x", []))
+
+
+def _may_panic(facts, t, depth=0, owner_adt=None):
+    """reason string if the call (or, one level down, the crate-local function it calls) contains an unwrap()/expect() of an
+    Option/Result or an explicit panic"""
+    f = t["f"]
+    name = f.get("name")
+    if name in ("unwrap", "expect") and f.get("self_adt") in ("std::option::Option", "std::result::Result"):
+        return "%s() on %s" % (name, f["self_adt"].split("::")[-1])
+    q = f.get("q") or ""
+    if q.startswith(("std::rt::panic", "core::panicking", "std::panicking")):
+        return "an explicit panic"
+    if depth >= 2:
+        return None
+    for q2 in Body.callee_qs(t):
+        for hb in facts.by_q.get(q2, []):
+            if depth == 0 and not (hb.self_adt and hb.self_adt == owner_adt):
+                continue      # only the runner's own methods (bookkeeping over its per-run state); free helpers such as
+                              # get_cpu_time() fail only if a system call does
+            for bb3, t3 in hb.calls():
+                if from_logging_term(t3):
+                    continue
+                w = _may_panic(facts, t3, depth + 1, owner_adt)
+                if w:
+                    return "%s (which contains %s)" % (q2.split("::")[-1] + "()", w)
+    return None
+
+
 def _slot_state_search(body, slot, starts):
     """explicit-state search over (block, state of the Option local `slot` in {'N','S','?'}) - returns {block: set(states at its
     terminator)}.  Refines on `Option::is_none/is_some(&slot)` results and on discr(slot) switches; `slot = Some(..)`,
@@ -579,6 +610,25 @@ def rule_r6(facts, col, bodies=None):
                     vals = [e for rb, si, e in assigns_to_return(body) if rb in at2]
                     if not any(e.k == "agg" and e.variant == "Err" for e in vals) or any(e.k == "agg" and e.variant == "Ok" for e in vals):
                         okret = False
+            # ... and nothing that can panic runs between the loop and that return (the failure must be REPORTED, not turned into
+            # a panic by bookkeeping that assumes a successful run)
+            risky = None
+            for b2 in sorted(at2):
+                if at2[b2] - {"S"}:
+                    continue
+                t2 = body.term(b2)
+                if t2["k"] != "call" or from_logging_term(t2):
+                    continue
+                why = _may_panic(facts, t2, 0, body.self_adt)
+                if why:
+                    risky = (b2, why)
+                    break
+            if okret and risky:
+                col.bad("C07.R6", key, body.where(risky[0]),
+                        "with a block failure recorded, run() executes %s before returning the error: when that panics (e.g. statistics "
+                        "over the threads that finished Ok - none, if every block failed) the caller gets a panic instead of the block's "
+                        "error" % risky[1], {})
+                continue
             if okret:
                 col.ok("C07.R6", key, body.where(bb), "error kept in slot _%d on every way out of the arm; a filled slot is returned" % slot)
             else:
